@@ -310,7 +310,19 @@ func runC14(c *Ctx) error {
 			meta = genIdents(r, metaIdents)
 		}
 		rel := rng.Pick(r, []string{"", "1", "2", "10"})
-		epoch := rng.Pick(r, []string{"", "", "1", "3"})
+		epoch := rng.Pick(r, []string{"", "", "1", "3", "0"})
+		// the first cases are fixed: prereleases that are numbers only (1.0.0-1 and 1.0.0-20240115 are semver
+		// prereleases, not revisions) without a release, and a zero epoch next to a prerelease
+		switch i {
+		case 0:
+			pre, meta, rel, epoch = "1", "", "", ""
+		case 1:
+			pre, meta, rel, epoch = "20240115", "", "", "2"
+		case 2:
+			pre, meta, rel, epoch = "rc1", "", "", "0"
+		case 3:
+			pre, meta, rel, epoch = "beta.2", "git", "3", "00"
+		}
 		build := func(format, pre string) (PkgMeta, VInfo, error) {
 			ver := core
 			if pre != "" {
@@ -358,6 +370,12 @@ func runC14(c *Ctx) error {
 			if pre != "" && (f == "deb" || f == "ipk") && !strings.Contains(pmPre.Version, "~"+pre) {
 				c.Rep.Find(report.Finding{Property: "C14", Family: "ordering", Shape: f + ":prerelease-not-carried-as-written",
 					What: fmt.Sprintf("the version %s-%s has the prerelease %q; the %s package states version %q", core, pre, pre, f, pmPre.Version), Input: in})
+			}
+			// archlinux: with an epoch configured (0 included) the prerelease is part of pkgver ('-' written as '_'); the
+			// case without an epoch is the known finding recorded under C02 / C15 and is not judged here
+			if f == "archlinux" && pre != "" && epoch != "" && !strings.Contains(pmPre.Version, strings.ReplaceAll(pre, "-", "_")) {
+				c.Rep.Find(report.Finding{Property: "C14", Family: "ordering", Shape: "archlinux:prerelease-lost:with-epoch",
+					What: fmt.Sprintf("the version %s-%s with epoch %q: .PKGINFO states pkgver %q, the prerelease is lost (the prerelease build and the release build get the same version)", core, pre, epoch, pmPre.Version), Input: in})
 			}
 			switch f {
 			case "deb", "ipk":
@@ -457,11 +475,19 @@ func runC15(c *Ctx) error {
 			override = rng.Pick(r, []string{"custom", "armv9", "any"})
 		}
 		platform := rng.Pick(r, []string{"linux", "linux", "linux", "freebsd"})
+		// rarely used format-specific settings that sit next to the identity: none of them is part of the name
+		extras := r.Chance(1, 3)
 		for _, f := range Formats {
 			mut := func(info *nfpm.Info) {
 				vc.apply(info)
 				info.Name, info.Arch = name, arch
 				info.Platform = platform
+				if extras {
+					info.IPK.ABIVersion = "3"
+					info.ArchLinux.Pkgbase = "basepkg"
+					info.RPM.Group = "System/Tools"
+					info.Section = "utils"
+				}
 				switch f {
 				case "deb":
 					info.Deb.Arch = override
@@ -478,6 +504,9 @@ func runC15(c *Ctx) error {
 			}
 			in := vc.in()
 			in["format"], in["name"], in["arch"], in["arch_override"], in["platform"] = f, name, arch, override, platform
+			if extras {
+				in["extras"] = "ipk.abi_version 3, archlinux.pkgbase basepkg, rpm.group, section"
+			}
 			s := &PkgSpec{Umask: 0o022, MTime: 1700000000, Mutate: mut}
 			p, _ := nfpm.Get(f)
 			infoA := s.Info()
